@@ -193,29 +193,118 @@ func newPKI(prefix string) *pki {
 
 var synthFMSPC = []byte{0x00, 0xA0, 0x6F, 0xB0, 0x00, 0x00}
 
-func (p *pki) pckLeaf(signer *ecdsa.PrivateKey, parent *x509.Certificate, nb, na int64, withFMSPC bool) []byte {
-	var comp [16]int
+func (p *pki) pckLeaf(signer *ecdsa.PrivateKey, parent *x509.Certificate, nb, na int64, withFMSPC bool, m *matchSpec) []byte {
+	comp, pcesvn := m.platform()
+	_, der := mkCert("SGX PCK Certificate", p.pck, signer, parent, false, nb, na, []pkix.Extension{sgxExtension(synthFMSPC, comp, pcesvn, withFMSPC)})
+	return der
+}
+
+// matchSpec varies what Intel's TCB level selection compares: the platform's
+// 16 SGX component SVNs and PCESVN (PCK certificate), the TEE TCB SVNs of a TD
+// report, against the three levels (all components 5 / 3 / 0, PCESVN 11 / 9 / 6)
+// whose statuses are given.  nil: the default platform (components 4, PCESVN 11).
+type matchSpec struct {
+	Comp     int       `json:"comp"`      // value of every SGX component SVN
+	Low      int       `json:"low"`       // index of one component lowered to 2, or -1
+	PCESVN   int       `json:"pcesvn"`    // PCESVN in the PCK certificate
+	Tdx      int       `json:"tdx"`       // value of TEE TCB SVN 2..15 (and 0 when Minor is 0)
+	TdxLow   int       `json:"tdx_low"`   // index of one TEE TCB SVN lowered to 2, or -1
+	Minor    int       `json:"tdx_minor"` // TEE TCB SVN index 1 (TDX module major version)
+	Statuses [3]string `json:"statuses"`
+}
+
+var matchLevels = [3]int{5, 3, 0}
+
+func (m *matchSpec) key() string {
+	if m == nil {
+		return ""
+	}
+	return fmt.Sprintf("%d/%d/%d", m.Comp, m.Low, m.PCESVN)
+}
+
+func (m *matchSpec) platform() (comp [16]int, pcesvn int) {
 	for i := range comp {
 		comp[i] = 4
 	}
-	_, der := mkCert("SGX PCK Certificate", p.pck, signer, parent, false, nb, na, []pkix.Extension{sgxExtension(synthFMSPC, comp, 11, withFMSPC)})
-	return der
+	if m == nil {
+		return comp, 11
+	}
+	for i := range comp {
+		comp[i] = m.Comp
+	}
+	if m.Low >= 0 {
+		comp[m.Low] = 2
+	}
+	return comp, m.PCESVN
+}
+
+// teeTcbSvn is the TD report's TEE TCB SVN array.
+func (m *matchSpec) teeTcbSvn() (t [16]byte) {
+	t[0], t[1] = 3, 1
+	for i := 2; i < 16; i++ {
+		t[i] = 4
+	}
+	if m == nil {
+		return
+	}
+	for i := 2; i < 16; i++ {
+		t[i] = byte(m.Tdx)
+	}
+	t[1] = byte(m.Minor)
+	if m.Minor == 0 {
+		t[0] = byte(m.Tdx)
+	}
+	if m.TdxLow >= 0 && m.TdxLow != 1 {
+		t[m.TdxLow] = 2
+	}
+	return
+}
+
+// level is the selection written from Intel's description: the first level all
+// of whose SGX components and PCESVN (and, for TDX, TEE TCB SVNs from index 0,
+// or from 2 when the SVN at index 1 is non-zero) the platform reaches.
+func (m *matchSpec) level(tdx bool) int {
+	comp, pcesvn := m.platform()
+	t := m.teeTcbSvn()
+	for k, v := range matchLevels {
+		ok := pcesvn >= v+6
+		for _, c := range comp {
+			ok = ok && c >= v
+		}
+		if tdx {
+			off := 0
+			if t[1] != 0 {
+				off = 2
+			}
+			for _, c := range t[off:] {
+				ok = ok && int(c) >= v
+			}
+		}
+		if ok {
+			return k
+		}
+	}
+	return -1
 }
 
 // synthSpec states what the bundle looks like; every field is data the
 // reference verdict is computed from (no parsing of the generated bytes).
 type synthSpec struct {
-	Tee        string `json:"tee"`         // sgx3 | sgx4 | tdx4
-	PlatStatus string `json:"plat_status"` // status of the level the platform matches; "none": no level matches
-	QEStatus   string `json:"qe_status"`
-	ModStatus  string `json:"mod_status,omitempty"`  // TDX module status; "missing": module identity not listed
-	FMSPC      string `json:"fmspc"`                 // equal | lower | differs | prefix | long | nothex
-	Dev        string `json:"dev,omitempty"`         // single deviation
-	RD         string `json:"report_data,omitempty"` // hex report data (default: fixed)
-	Lax        bool   `json:"lax_policy,omitempty"`  // policy with minimum evaluation number 0 and 65535 days validity
+	Tee        string     `json:"tee"`         // sgx3 | sgx4 | tdx4
+	PlatStatus string     `json:"plat_status"` // status of the level the platform matches; "none": no level matches
+	QEStatus   string     `json:"qe_status"`
+	ModStatus  string     `json:"mod_status,omitempty"`  // TDX module status; "missing": module identity not listed
+	FMSPC      string     `json:"fmspc"`                 // equal | lower | differs | prefix | long | nothex
+	Dev        string     `json:"dev,omitempty"`         // single deviation
+	RD         string     `json:"report_data,omitempty"` // hex report data (default: fixed)
+	Lax        bool       `json:"lax_policy,omitempty"`  // policy with minimum evaluation number 0 and 65535 days validity
+	Match      *matchSpec `json:"match,omitempty"`       // TCB level matching product (PlatStatus is ignored)
 }
 
 func (s synthSpec) String() string {
+	if s.Match != nil {
+		return fmt.Sprintf("%s match=%+v qe=%s mod=%s fmspc=%s", s.Tee, *s.Match, s.QEStatus, s.ModStatus, s.FMSPC)
+	}
 	return fmt.Sprintf("%s plat=%s qe=%s mod=%s fmspc=%s dev=%s lax=%v", s.Tee, s.PlatStatus, s.QEStatus, s.ModStatus, s.FMSPC, s.Dev, s.Lax)
 }
 
@@ -361,6 +450,8 @@ func (g *synthGen) build(s synthSpec) synthCase {
 	}
 	var levels []any
 	switch {
+	case s.Match != nil:
+		levels = []any{level(5, s.Match.Statuses[0]), level(3, s.Match.Statuses[1]), level(0, s.Match.Statuses[2])}
 	case dev == "pck-matches-first-level":
 		levels = []any{level(4, "UpToDate"), level(3, "OutOfDate"), level(0, "Revoked")}
 	case s.PlatStatus == "none":
@@ -516,7 +607,7 @@ func (g *synthGen) build(s synthSpec) synthCase {
 
 	// ---- PCK chain ----
 	leaf := func(key string, signer *ecdsa.PrivateKey, parent *x509.Certificate, nb, na int64, fm bool) []byte {
-		return g.memo("leaf:"+key, func() []byte { return p.pckLeaf(signer, parent, nb, na, fm) })
+		return g.memo("leaf:"+key+":"+s.Match.key(), func() []byte { return p.pckLeaf(signer, parent, nb, na, fm, s.Match) })
 	}
 	good := leaf("good", p.plat, p.platC, synthT-30*day, synthT+7*365*day, true)
 	chain := pemOf(good, p.platD, p.rootD)
@@ -606,10 +697,8 @@ func (g *synthGen) build(s synthSpec) synthCase {
 	var body []byte
 	if tdx {
 		body = make([]byte, tdBody)
-		body[0], body[1] = 3, 1
-		for i := 2; i < 16; i++ {
-			body[i] = 4
-		}
+		tsvn := s.Match.teeTcbSvn()
+		copy(body[0:16], tsvn[:])
 		seam := sha256.Sum256([]byte("pcsmc seam"))
 		copy(body[16:], seam[:])
 		if dev == "tdx-foreign-seam-signer" {
@@ -660,7 +749,8 @@ func (g *synthGen) build(s synthSpec) synthCase {
 		qSigner = p.other
 	}
 	signed := append(append([]byte{}, hdr...), body...)
-	qSig := g.memo("qsig:"+s.Tee+":"+dev+":"+s.RD, func() []byte { return rawSig(qSigner, signed) })
+	bh := sha256.Sum256(signed)
+	qSig := g.memo("qsig:"+s.Tee+":"+dev+":"+s.RD+":"+hex.EncodeToString(bh[:8]), func() []byte { return rawSig(qSigner, signed) })
 	switch dev {
 	case "body-changed-after-signing":
 		body = append([]byte{}, body...)
@@ -687,14 +777,36 @@ func (g *synthGen) build(s synthSpec) synthCase {
 // synthMust is the verdict by construction.
 func synthMust(s synthSpec) string {
 	var why []string
-	if s.PlatStatus != "UpToDate" && s.PlatStatus != "SWHardeningNeeded" && s.Dev != "pck-matches-first-level" {
-		why = append(why, "platform TCB status "+s.PlatStatus)
+	if m := s.Match; m != nil {
+		k := m.level(s.Tee == "tdx4")
+		if k < 0 {
+			why = append(why, "no TCB level matches the platform")
+		} else if st := m.Statuses[k]; st != "UpToDate" && st != "SWHardeningNeeded" {
+			why = append(why, fmt.Sprintf("platform matches level %d with TCB status %s", k, st))
+		}
+		if s.Tee == "tdx4" {
+			t := m.teeTcbSvn()
+			switch {
+			case t[1] == 0: // no module identity check
+			case t[1] == 3: // TDX_03: one level (0, UpToDate)
+			case t[1] == 1: // TDX_01: levels 5 UpToDate, 2 ModStatus, 0 UpToDate
+				if t[0] < 5 && t[0] >= 2 && s.ModStatus != "UpToDate" {
+					why = append(why, "TDX module TCB status "+s.ModStatus)
+				}
+			default:
+				why = append(why, "TDX module identity not listed")
+			}
+		}
+	} else {
+		if s.PlatStatus != "UpToDate" && s.PlatStatus != "SWHardeningNeeded" && s.Dev != "pck-matches-first-level" {
+			why = append(why, "platform TCB status "+s.PlatStatus)
+		}
+		if s.Tee == "tdx4" && s.ModStatus != "UpToDate" {
+			why = append(why, "TDX module TCB status "+s.ModStatus)
+		}
 	}
 	if s.QEStatus != "UpToDate" {
 		why = append(why, "QE TCB status "+s.QEStatus)
-	}
-	if s.Tee == "tdx4" && s.ModStatus != "UpToDate" {
-		why = append(why, "TDX module TCB status "+s.ModStatus)
 	}
 	if s.FMSPC != "equal" && s.FMSPC != "lower" {
 		why = append(why, "TCB info FMSPC ("+s.FMSPC+") is not the platform's")
@@ -770,6 +882,57 @@ func (e *engine) synthLayer(thorough bool) {
 			}
 		}
 	}
+	// TCB level matching product: platform component SVNs, PCESVN and TEE TCB
+	// SVNs around the thresholds of three levels x all acceptable / unacceptable
+	// status triples, so that the level the implementation selects is observable.
+	nMatch := 0
+	for _, t := range tees {
+		var sts [][3]string
+		for a := 0; a < 8; a++ {
+			pick := func(bit int) string {
+				if a&bit != 0 {
+					return "OutOfDate"
+				}
+				return "UpToDate"
+			}
+			sts = append(sts, [3]string{pick(1), pick(2), pick(4)})
+		}
+		comps, lows, pces := []int{3, 4, 5, 6}, []int{-1, 0, 7, 15}, []int{5, 6, 8, 9, 10, 11, 12}
+		type td struct{ tdx, low, minor int }
+		tds := []td{{4, -1, 1}}
+		if t == "tdx4" {
+			comps, lows, pces = []int{4, 6}, []int{-1, 7}, []int{8, 9, 11}
+			tds = nil
+			for _, minor := range []int{0, 1, 2, 3} {
+				for _, v := range []int{3, 5} {
+					for _, low := range []int{-1, 0, 2, 15} {
+						tds = append(tds, td{v, low, minor})
+					}
+				}
+			}
+		}
+		for _, c := range comps {
+			for _, l := range lows {
+				for _, pv := range pces {
+					for _, x := range tds {
+						for _, st := range sts {
+							m := ""
+							if t == "tdx4" {
+								m = "OutOfDate"
+								if (c+pv+x.tdx+x.low)%2 == 0 {
+									m = "UpToDate"
+								}
+							}
+							specs = append(specs, synthSpec{Tee: t, QEStatus: "UpToDate", ModStatus: m, FMSPC: "equal",
+								Match: &matchSpec{Comp: c, Low: l, PCESVN: pv, Tdx: x.tdx, TdxLow: x.low, Minor: x.minor, Statuses: st}})
+							nMatch++
+						}
+					}
+				}
+			}
+		}
+	}
+	r.Set("synthetic_tcb_matching_bundles", int64(nMatch))
 	// Baselines: one per TEE type; also fixes the expected verified quote.
 	v0 := map[string]*sgx.VerifiedQuote{}
 	vecs := map[string]*vector{}
@@ -815,7 +978,9 @@ func (e *engine) synthLayer(thorough bool) {
 		must := synthMust(s)
 		v := vecs[s.Tee]
 		fam := "synthetic/status-product"
-		if s.Dev != "" {
+		if s.Match != nil {
+			fam = "synthetic/tcb-level-matching"
+		} else if s.Dev != "" {
 			fam = "synthetic/deviation"
 		}
 		if e.noteDistinct(v, &c.In) {
